@@ -627,6 +627,12 @@ class MQTTProtocol(MQTTBaseProtocol):
         for _, request in self.factory.windowPublish[self.addr].items():
             if request.alarm is None:
                 self._retryPublish(request, dup=True)
+        for _, request in self.factory.windowSubscribe[self.addr].items():
+            if request.alarm is None:
+                self._retrySubscribe(request, dup=True)
+        for _, request in self.factory.windowUnsubscribe[self.addr].items():
+            if request.alarm is None:
+                self._retryUnsubscribe(request, dup=True)
         self._refillPublish(dup=False)
 
     # --------------------------------------------------------------------------
@@ -636,6 +642,14 @@ class MQTTProtocol(MQTTBaseProtocol):
         Purges the persistent state in the client 
         '''
         #log.debug("{event}", event="Clean Persistent Session")
+        for k in list(self.factory.windowSubscribe[self.addr]):
+            request = self.factory.windowSubscribe[self.addr][k]
+            del self.factory.windowSubscribe[self.addr][k]
+            request.deferred.errback(reason)
+        for k in list(self.factory.windowUnsubscribe[self.addr]):
+            request = self.factory.windowUnsubscribe[self.addr][k]
+            del self.factory.windowUnsubscribe[self.addr][k]
+            request.deferred.errback(reason)
         for k in list(self.factory.windowPublish[self.addr]):
             request = self.factory.windowPublish[self.addr][k]
             del self.factory.windowPublish[self.addr][k]
@@ -681,14 +695,6 @@ class MQTTProtocol(MQTTBaseProtocol):
                 request.alarm = None
         # Then, invoke errbacks anyway if we do not persist state
         if self._cleanStart:
-            for k in list(self.factory.windowSubscribe[self.addr]):
-                request = self.factory.windowSubscribe[self.addr][k]
-                del self.factory.windowSubscribe[self.addr][k]
-                request.deferred.errback(reason)
-            for k in list(self.factory.windowUnsubscribe[self.addr]):
-                request = self.factory.windowUnsubscribe[self.addr][k]
-                del self.factory.windowUnsubscribe[self.addr][k]
-                request.deferred.errback(reason)
             self._purgeSession(reason)
 
 __all__ = [ "MQTTProtocol" ]
